@@ -36,6 +36,22 @@ def Answer : Query → Type
 
 abbrev World := (q : Query) → Answer q
 
+namespace World
+variable (W : World)
+def hash (a : HashAlg) (b : Bytes) : Bytes := W (.hash a b)
+def sha256 (b : Bytes) : Bytes := W (.hash .sha256 b)
+def jsonLoadsBytes (b : Bytes) : JsonOutcome := W (.jsonLoadsBytes b)
+def jsonLoadsStr (s : String) : JsonOutcome := W (.jsonLoadsStr s)
+def keyLoad (k : PubKey) : Bool := W (.keyLoad k)
+def spki (k : PubKey) : Bytes := W (.spki k)
+def sigVerify (k : PubKey) (s : Scheme) (sig data : Bytes) : SigOutcome := W (.sigVerify k s sig data)
+def x509Load (der : Bytes) : Option CertView := W (.x509Load der)
+def chainVerify (leaf : Bytes) (inter roots : List Bytes) : ChainOutcome := W (.chainVerify leaf inter roots)
+def keyDescription (der : Bytes) : Option KeyDescView := W (.keyDescription der)
+def nowSeconds : Int := W .nowSeconds
+def tokenBytes (k n : Nat) : Bytes := W (.tokenBytes k n)
+end World
+
 inductive Prog (α : Type) where
   | ret : α → Prog α
   | ask : (q : Query) → (Answer q → Prog α) → Prog α
@@ -138,30 +154,30 @@ def nowSecondsM : M Int := askM .nowSeconds
 def tokenBytesM (k n : Nat) : M Bytes := askM (.tokenBytes k n)
 
 @[simp] theorem runM_hashM_bind {β} (W : World) (a b) (f : Bytes → M β) :
-    runM W (hashM a b >>= f) = runM W (f (W (.hash a b))) := runM_askM_bind W (.hash a b) f
+    runM W (hashM a b >>= f) = runM W (f (W.hash a b)) := runM_askM_bind W (.hash a b) f
 @[simp] theorem runM_sha256M_bind {β} (W : World) (b) (f : Bytes → M β) :
-    runM W (sha256M b >>= f) = runM W (f (W (.hash .sha256 b))) := runM_askM_bind W (.hash .sha256 b) f
+    runM W (sha256M b >>= f) = runM W (f (W.sha256 b)) := runM_askM_bind W (.hash .sha256 b) f
 @[simp] theorem runM_jsonLoadsBytesM_bind {β} (W : World) (b) (f : JsonOutcome → M β) :
-    runM W (jsonLoadsBytesM b >>= f) = runM W (f (W (.jsonLoadsBytes b))) := runM_askM_bind W (.jsonLoadsBytes b) f
+    runM W (jsonLoadsBytesM b >>= f) = runM W (f (W.jsonLoadsBytes b)) := runM_askM_bind W (.jsonLoadsBytes b) f
 @[simp] theorem runM_jsonLoadsStrM_bind {β} (W : World) (s) (f : JsonOutcome → M β) :
-    runM W (jsonLoadsStrM s >>= f) = runM W (f (W (.jsonLoadsStr s))) := runM_askM_bind W (.jsonLoadsStr s) f
+    runM W (jsonLoadsStrM s >>= f) = runM W (f (W.jsonLoadsStr s)) := runM_askM_bind W (.jsonLoadsStr s) f
 @[simp] theorem runM_keyLoadM_bind {β} (W : World) (k) (f : Bool → M β) :
-    runM W (keyLoadM k >>= f) = runM W (f (W (.keyLoad k))) := runM_askM_bind W (.keyLoad k) f
+    runM W (keyLoadM k >>= f) = runM W (f (W.keyLoad k)) := runM_askM_bind W (.keyLoad k) f
 @[simp] theorem runM_spkiM_bind {β} (W : World) (k) (f : Bytes → M β) :
-    runM W (spkiM k >>= f) = runM W (f (W (.spki k))) := runM_askM_bind W (.spki k) f
+    runM W (spkiM k >>= f) = runM W (f (W.spki k)) := runM_askM_bind W (.spki k) f
 @[simp] theorem runM_sigVerifyM_bind {β} (W : World) (k s sig data) (f : SigOutcome → M β) :
-    runM W (sigVerifyM k s sig data >>= f) = runM W (f (W (.sigVerify k s sig data))) :=
+    runM W (sigVerifyM k s sig data >>= f) = runM W (f (W.sigVerify k s sig data)) :=
   runM_askM_bind W (.sigVerify k s sig data) f
 @[simp] theorem runM_x509LoadM_bind {β} (W : World) (der) (f : Option CertView → M β) :
-    runM W (x509LoadM der >>= f) = runM W (f (W (.x509Load der))) := runM_askM_bind W (.x509Load der) f
+    runM W (x509LoadM der >>= f) = runM W (f (W.x509Load der)) := runM_askM_bind W (.x509Load der) f
 @[simp] theorem runM_chainVerifyM_bind {β} (W : World) (l i r) (f : ChainOutcome → M β) :
-    runM W (chainVerifyM l i r >>= f) = runM W (f (W (.chainVerify l i r))) := runM_askM_bind W (.chainVerify l i r) f
+    runM W (chainVerifyM l i r >>= f) = runM W (f (W.chainVerify l i r)) := runM_askM_bind W (.chainVerify l i r) f
 @[simp] theorem runM_keyDescriptionM_bind {β} (W : World) (der) (f : Option KeyDescView → M β) :
-    runM W (keyDescriptionM der >>= f) = runM W (f (W (.keyDescription der))) :=
+    runM W (keyDescriptionM der >>= f) = runM W (f (W.keyDescription der)) :=
   runM_askM_bind W (.keyDescription der) f
 @[simp] theorem runM_nowSecondsM_bind {β} (W : World) (f : Int → M β) :
-    runM W (nowSecondsM >>= f) = runM W (f (W .nowSeconds)) := runM_askM_bind W .nowSeconds f
+    runM W (nowSecondsM >>= f) = runM W (f W.nowSeconds) := runM_askM_bind W .nowSeconds f
 @[simp] theorem runM_tokenBytesM_bind {β} (W : World) (k n) (f : Bytes → M β) :
-    runM W (tokenBytesM k n >>= f) = runM W (f (W (.tokenBytes k n))) := runM_askM_bind W (.tokenBytes k n) f
+    runM W (tokenBytesM k n >>= f) = runM W (f (W.tokenBytes k n)) := runM_askM_bind W (.tokenBytes k n) f
 
 end Webauthn
